@@ -5,6 +5,7 @@ C08 — helper lemmas: the regenerated constants against the hand-written ones, 
 uint8/uint32 arithmetic of getRestrictionReason, the flood-limit loop, and the general facts about
 `runEvents` (acceptance = no guard fires; a refusal after `guardsFirst` leaves nothing touched).
 -/
+set_option linter.unusedSimpArgs false
 namespace PttVerif.C08
 open PttVerif
 
@@ -102,7 +103,7 @@ theorem quiet_sound (x : Row) : ∀ c : Cond, c.quiet = true → evalCond x c = 
   | tt => simp [Cond.quiet]
   | atom a =>
     cases a <;> simp [Cond.quiet, evalCond, evalAtom]
-    case callFailed k s => cases k <;> simp [Cond.quiet, evalAtom]
+    case callFailed k s => cases k <;> simp [Cond.quiet]
   | not c _ => simp [Cond.quiet]
   | and a b iha ihb =>
     simp only [Cond.quiet, Bool.or_eq_true, evalCond, Bool.and_eq_false_iff]
@@ -150,28 +151,30 @@ theorem refused_untouched_of_guardsFirst (x : Row) (evs : List Event) (h : guard
 
 theorem accepted_newpost_model (x : Row) :
     accepted .newpost x ↔
-      ¬ boardPermStat x.u x.src = 0 ∧ postpermMsg x.u x.src x.now = none ∧ getBoardRestrictionReason x.u x.src = 0 ∧
+      boardPermStat x.u x.src ≠ 0 ∧ postpermMsg x.u x.src x.now = none ∧ getBoardRestrictionReason x.u x.src = 0 ∧
       checkCooldown x.u x.src x.cd x.now = false ∧ has x.u.level PERM_LOGINOK = true := by
   unfold accepted run Op.events
   rw [runEvents_err_none]
-  simp [Gen.WriteGuards.newpost, evalCond, evalAtom, Row.board, checkPostRestriction]
-  rfl
+  simp [Gen.WriteGuards.newpost, evalCond, evalAtom, Row.board, checkPostRestriction, PERM_LOGINOK, PERM_BASIC, PERM_SYSOP, PERM_VIOLATELAW, BRD_VOTEBOARD, BRD_NORECOMMEND, BRD_CPLOG, FILE_MARKED, FILE_SOLVED, FILE_VOTE,
+    Gen.WriteGuards.PERM_LOGINOK, Gen.WriteGuards.PERM_BASIC, Gen.WriteGuards.PERM_SYSOP, Gen.WriteGuards.PERM_VIOLATELAW, Gen.WriteGuards.BRD_VOTEBOARD,
+    Gen.WriteGuards.BRD_NORECOMMEND, Gen.WriteGuards.BRD_CPLOG, Gen.WriteGuards.FILE_MARKED, Gen.WriteGuards.FILE_SOLVED, Gen.WriteGuards.FILE_VOTE]
 
 theorem accepted_recommend_model (x : Row) :
     accepted .recommend x ↔
-      ¬ boardPermStat x.u x.src = 0 ∧ postpermMsg x.u x.src x.now = none ∧ getBoardRestrictionReason x.u x.src = 0 ∧
+      boardPermStat x.u x.src ≠ 0 ∧ postpermMsg x.u x.src x.now = none ∧ getBoardRestrictionReason x.u x.src = 0 ∧
       checkCooldown x.u x.src x.cd x.now = false ∧
       x.art.total0 = false ∧ x.art.found = true ∧
       (has x.src.attr BRD_NORECOMMEND = false ∧ firstIs x.art.entName 76 = false) ∧
       (has x.art.entMode.toUInt32 FILE_MARKED = false ∨ has x.art.entMode.toUInt32 FILE_SOLVED = false) := by
   unfold accepted run Op.events
   rw [runEvents_err_none]
-  simp [Gen.WriteGuards.recommend, evalCond, evalAtom, Row.board]
-  rfl
+  simp [Gen.WriteGuards.recommend, evalCond, evalAtom, Row.board, PERM_LOGINOK, PERM_BASIC, PERM_SYSOP, PERM_VIOLATELAW, BRD_VOTEBOARD, BRD_NORECOMMEND, BRD_CPLOG, FILE_MARKED, FILE_SOLVED, FILE_VOTE,
+    Gen.WriteGuards.PERM_LOGINOK, Gen.WriteGuards.PERM_BASIC, Gen.WriteGuards.PERM_SYSOP, Gen.WriteGuards.PERM_VIOLATELAW, Gen.WriteGuards.BRD_VOTEBOARD,
+    Gen.WriteGuards.BRD_NORECOMMEND, Gen.WriteGuards.BRD_CPLOG, Gen.WriteGuards.FILE_MARKED, Gen.WriteGuards.FILE_SOLVED, Gen.WriteGuards.FILE_VOTE]
 
 theorem accepted_editpost_model (x : Row) :
     accepted .editpost x ↔
-      ¬ boardPermStat x.u x.src = 0 ∧
+      boardPermStat x.u x.src ≠ 0 ∧
       (isReadonlyBoard x.src.name = false ∧ has x.src.attr BRD_VOTEBOARD = false) ∧
       x.art.found = true ∧ has x.art.entMode.toUInt32 FILE_VOTE = false ∧ firstIs x.art.entName 46 = false ∧
       has x.u.level PERM_BASIC = true ∧
@@ -179,21 +182,25 @@ theorem accepted_editpost_model (x : Row) :
       (isFileOwner x.art x.u = true ∨ has x.u.level PERM_SYSOP = true) := by
   unfold accepted run Op.events
   rw [runEvents_err_none]
-  simp [Gen.WriteGuards.editpost, evalCond, evalAtom, Row.board]
-  rfl
+  simp [Gen.WriteGuards.editpost, evalCond, evalAtom, Row.board, PERM_LOGINOK, PERM_BASIC, PERM_SYSOP, PERM_VIOLATELAW, BRD_VOTEBOARD, BRD_NORECOMMEND, BRD_CPLOG, FILE_MARKED, FILE_SOLVED, FILE_VOTE,
+    Gen.WriteGuards.PERM_LOGINOK, Gen.WriteGuards.PERM_BASIC, Gen.WriteGuards.PERM_SYSOP, Gen.WriteGuards.PERM_VIOLATELAW, Gen.WriteGuards.BRD_VOTEBOARD,
+    Gen.WriteGuards.BRD_NORECOMMEND, Gen.WriteGuards.BRD_CPLOG, Gen.WriteGuards.FILE_MARKED, Gen.WriteGuards.FILE_SOLVED, Gen.WriteGuards.FILE_VOTE]
 
 theorem accepted_crosspost_model (x : Row) :
     accepted .crosspost x ↔
-      has x.src.attr BRD_VOTEBOARD = false ∧ ¬ boardPermStat x.u x.src = 0 ∧
+      has x.src.attr BRD_VOTEBOARD = false ∧ boardPermStat x.u x.src ≠ 0 ∧
       x.art.found = true ∧ firstIs x.art.entOwner 45 = false ∧ x.art.fileExists = true ∧
       has x.u.level PERM_VIOLATELAW = false ∧ has x.u.level PERM_LOGINOK = true ∧
       (has x.src.attr BRD_CPLOG = true →
         postpermMsg x.u x.src x.now = none ∧ getBoardRestrictionReason x.u x.src = 0) ∧
-      ¬ boardPermStat x.u x.tgt = 0 ∧ postpermMsg x.u x.tgt x.now = none ∧
+      boardPermStat x.u x.tgt ≠ 0 ∧ postpermMsg x.u x.tgt x.now = none ∧
       getBoardRestrictionReason x.u x.tgt = 0 ∧ checkCooldown x.u x.tgt x.cd x.now = false := by
   unfold accepted run Op.events
   rw [runEvents_err_none]
-  simp [Gen.WriteGuards.crosspost, evalCond, evalAtom, Row.board, checkPostRestriction, hasPostPerm]
-  rfl
+  simp [Gen.WriteGuards.crosspost, evalCond, evalAtom, Row.board, checkPostRestriction, hasPostPerm, PERM_LOGINOK, PERM_BASIC, PERM_SYSOP, PERM_VIOLATELAW, BRD_VOTEBOARD, BRD_NORECOMMEND, BRD_CPLOG, FILE_MARKED, FILE_SOLVED, FILE_VOTE,
+    Gen.WriteGuards.PERM_LOGINOK, Gen.WriteGuards.PERM_BASIC, Gen.WriteGuards.PERM_SYSOP, Gen.WriteGuards.PERM_VIOLATELAW, Gen.WriteGuards.BRD_VOTEBOARD,
+    Gen.WriteGuards.BRD_NORECOMMEND, Gen.WriteGuards.BRD_CPLOG, Gen.WriteGuards.FILE_MARKED, Gen.WriteGuards.FILE_SOLVED, Gen.WriteGuards.FILE_VOTE]
+  intros
+  cases has x.src.attr 2097152 <;> simp
 
 end PttVerif.C08
